@@ -363,6 +363,30 @@ Section Closures.
       apply Hn. apply Hos. exact Ho.
   Qed.
 
+  (* entries of casted_cycles are only ever appended: a cycle that has a number keeps it *)
+  Lemma number_closures_keeps c : forall cl casted heap rel casted' heap' rel',
+    zget casted c <> None -> number_closures cl casted heap rel = Ok (casted', heap', rel') -> zget casted' c = zget casted c.
+  Proof.
+    induction cl as [|[p0 c0] cl IHl]; intros casted heap rel casted' heap' rel' Hd En; cbn [number_closures] in En.
+    - inversion En. subst. reflexivity.
+    - destruct (zget casted c0) eqn:E0.
+      + eapply IHl; [exact Hd | exact En].
+      + destruct heap as [|k heap]; [discriminate|].
+        assert (Hz : zget (casted ++ [(c0, k)]) c = zget casted c).
+        { rewrite zget_app_last. destruct (zget casted c); [reflexivity | contradiction]. }
+        rewrite <- Hz. eapply IHl; [|exact En]. rewrite Hz. exact Hd.
+  Qed.
+
+  Lemma number_atoms_keeps tokens ro c : forall todo casted heap casted' heap',
+    zget casted c <> None -> number_atoms tokens ro todo casted heap = Ok (casted', heap') -> zget casted' c = zget casted c.
+  Proof.
+    induction todo as [|[a p] todo IHt]; intros casted heap casted' heap' Hd Hrun; cbn [number_atoms] in Hrun.
+    - inversion Hrun. subst. reflexivity.
+    - destruct (number_closures _ casted heap []) as [[[c2 h2] rel2]|e] eqn:En2; [|discriminate].
+      pose proof (number_closures_keeps c _ _ _ _ _ _ _ Hd En2) as Hpres.
+      rewrite (IHt _ _ _ _ (ltac:(rewrite Hpres; exact Hd)) Hrun). exact Hpres.
+  Qed.
+
   (* ---- all atoms: number_atoms ---- *)
   Fixpoint wf_events (open seen : list Z) (evs : list (list Z)) : Prop :=
     match evs with
@@ -383,46 +407,22 @@ Section Closures.
                         (forall c, In c open -> cnum casted' c = cnum casted c).
   Proof.
     intros tokens ro todo. induction todo as [|[a p] todo IH]; intros casted heap open seen casted' heap' I Hno Hwf Hrun.
-    - cbn in Hrun. inversion Hrun. subst. exists open, seen. repeat split; auto.
+    - cbn in Hrun. inversion Hrun. subst. exists open, seen. split; [exact I|]. split; [exact Hno|]. intros; reflexivity.
     - cbn [number_atoms] in Hrun. cbn [map fst] in Hwf. cbn [wf_events] in Hwf. destruct Hwf as [Hnd [Hcl Hwf]].
       fold (atom_closures tokens ro a) in Hrun.
       destruct (number_closures (atom_closures tokens ro a) casted heap []) as [[[c1 h1] rel]|e] eqn:En; [|discriminate].
       destruct (atom_no_clash _ _ _ _ _ _ _ _ I Hno Hnd Hcl En) as [Hkeep [_ [I1 Hno1]]].
       destruct (IH _ _ _ _ _ _ I1 Hno1 Hwf Hrun) as [open' [seen' [I' [Hno' Hk']]]].
-      exists open', seen'. repeat split; try assumption.
+      exists open', seen'. split; [exact I'|]. split; [exact Hno'|].
       intros c Hc. (* an open cycle either stays open (number kept by induction) or was closed at this atom *)
       destruct (in_dec Z.eq_dec c (open_after open seen (map snd (atom_closures tokens ro a)))) as [Hin | Hnin].
       + rewrite (Hk' c Hin). apply Hkeep. exact Hc.
-      + (* closed: its entry in casted is never overwritten (zget returns the first binding; entries are only appended) *)
-        assert (Hd : zget c1 c <> None).
-        { pose proof (inv_dom _ _ _ _ I c Hc) as Hd0. pose proof (Hkeep c Hc) as Hk.
-          unfold cnum, casted_of in Hk. clear - En Hd0.
-          revert En. generalize (atom_closures tokens ro a) casted heap (@nil Z) Hd0.
-          induction l as [|[p0 c0] l IHl]; intros cs hp rl Hd0 En; cbn [number_closures] in En.
-          - inversion En. subst. exact Hd0.
-          - destruct (zget cs c0) eqn:E0.
-            + eapply IHl; [exact Hd0 | exact En].
-            + destruct hp as [|k hp]; [discriminate|]. eapply IHl; [|exact En].
-              rewrite zget_app_last. destruct (zget cs c); [discriminate | contradiction]. }
-        rewrite <- (Hkeep c Hc).
-        (* number_atoms only appends to casted *)
-        clear - Hrun Hd.
-        revert Hrun Hd. generalize (fold_left (fun h c => heap_push c h) rel h1). generalize c1.
-        induction todo as [|[a' p'] todo IHt]; intros cs hp Hrun Hd; cbn [number_atoms] in Hrun.
-        * inversion Hrun. subst. reflexivity.
-        * destruct (number_closures _ cs hp []) as [[[c2 h2] rel2]|e] eqn:En2; [|discriminate].
-          assert (Hpres : zget c2 c = zget cs c).
-          { clear - En2 Hd. revert En2. generalize (sort_by (fun x : Z * Z => [match zget ro (fst x) with Some p => p | None => 0 end]) (zgetl tokens a')) cs hp (@nil Z) Hd.
-            induction l as [|[p0 c0] l IHl]; intros cs hp rl Hd En; cbn [number_closures] in En.
-            - inversion En. subst. reflexivity.
-            - destruct (zget cs c0) eqn:E0.
-              + eapply IHl; [exact Hd | exact En].
-              + destruct hp as [|k hp]; [discriminate|].
-                assert (Hz : zget (cs ++ [(c0, k)]) c = zget cs c).
-                { rewrite zget_app_last. destruct (zget cs c); [reflexivity | contradiction]. }
-                rewrite <- Hz. eapply IHl; [|exact En]. rewrite Hz. exact Hd. }
-          rewrite (IHt c2 _ Hrun); [|rewrite Hpres; exact Hd].
-          unfold cnum, casted_of. rewrite Hpres. reflexivity.
+      + (* closed at this atom: its entry in casted is never overwritten *)
+        pose proof (inv_dom _ _ _ _ I c Hc) as Hd0.
+        pose proof (number_closures_keeps c _ _ _ _ _ _ _ Hd0 En) as H1.
+        assert (Hd1 : zget c1 c <> None) by (rewrite H1; exact Hd0).
+        pose proof (number_atoms_keeps tokens ro c _ _ _ _ _ Hd1 Hrun) as H2.
+        unfold cnum, casted_of. rewrite H2, H1. reflexivity.
   Qed.
 End Closures.
 
@@ -454,13 +454,50 @@ Proof.
   exact (inv_good_cast _ _ _ _ _ I c k Hk).
 Qed.
 
+(* ---- a decision procedure for the hypothesis, evaluated by the check on the closure lists of the model's runs ---- *)
+Fixpoint wf_events_b (open seen : list Z) (evs : list (list Z)) : bool :=
+  match evs with
+  | [] => true
+  | cs :: r => nodup_z cs && forallb (fun c => zmem c open || negb (zmem c seen)) cs &&
+               wf_events_b (open_after open seen cs) (seen ++ opening seen cs) r
+  end.
+
+Lemma nodup_z_NoDup l : nodup_z l = true -> NoDup l.
+Proof.
+  induction l as [|x l IH]; intros H; [constructor|]. cbn [nodup_z] in H. apply andb_true_iff in H. destruct H as [H1 H2].
+  constructor; [|apply IH; exact H2]. apply negb_true_iff in H1. intros Hin. apply zmem_In in Hin. congruence.
+Qed.
+
+Lemma wf_events_b_sound : forall evs open seen, wf_events_b open seen evs = true -> wf_events open seen evs.
+Proof.
+  induction evs as [|cs r IH]; intros open seen H; cbn [wf_events]; [exact I|].
+  cbn [wf_events_b] in H. apply andb_true_iff in H. destruct H as [H H3]. apply andb_true_iff in H. destruct H as [H1 H2].
+  split; [apply nodup_z_NoDup; exact H1|]. split; [|apply IH; exact H3].
+  intros c Hc. rewrite forallb_forall in H2. specialize (H2 c Hc). apply orb_true_iff in H2. destruct H2 as [H2 | H2].
+  - left. apply zmem_In. exact H2.
+  - right. apply negb_true_iff in H2. intros Hin. apply zmem_In in Hin. congruence.
+Qed.
+
+(* the closure lists of the first component of a molecule, as number_atoms processes them *)
+Definition first_component_events (g : mol) (w tb : Z -> Z) (o : opts) : option (list (list Z)) :=
+  match traverse g w tb o (ids g) (init_state g) with
+  | Ok t =>
+      match flatten g t with
+      | Ok smi =>
+          let tokens := ds_tokens (tr_dfs t) in
+          let ro := ring_positions tokens smi 0 in
+          Some (map (fun a => map snd (atom_closures tokens ro (fst a))) ro)
+      | Err _ => None
+      end
+  | Err _ => None
+  end.
+Definition events_ok (g : mol) (w tb : Z -> Z) (o : opts) : bool :=
+  match first_component_events g w tb o with Some evs => wf_events_b [] [] evs | None => false end.
+
 (* non-vacuity and the point of the delayed release: at a spiro atom where cycle 1 ends and cycle 2 starts, cycle 2 does not
    get the number of cycle 1 (C1CC12CC2, never C1CC11CC1) *)
 Lemma delayed_release_example :
   number_atoms [(1, [(3, 1)]); (3, [(1, 1); (5, 2)]); (5, [(3, 2)])] [(1, 0); (3, 2); (5, 4)] [(1, 0); (3, 2); (5, 4)] []
                (zrange heap_lo heap_hi) = Ok ([(1, 1); (2, 2)], zrange heap_lo heap_hi) /\
   wf_events [] [] [[1]; [1; 2]; [2]].
-Proof.
-  split; [vm_compute; reflexivity|]. cbn. repeat split; try (repeat constructor; cbn; intuition discriminate).
-  all: intros c H; cbn in H; intuition (subst; cbn; auto; try (right; intros []; discriminate)).
-Qed.
+Proof. split; [vm_compute; reflexivity | apply wf_events_b_sound; vm_compute; reflexivity]. Qed.
